@@ -244,11 +244,19 @@ class Shadow(CallbackListener):
             r = i.reference
             if self.ref.get(id(i)) != (None if r is None else id(r)):
                 return "reference", "instance reference differs from the mirror"
+        def typed(v):
+            # 1, True and 1.0 compare equal and are different data (they are written differently): compare with the types
+            if isinstance(v, dict):
+                return ("dict", sorted((repr(k_), typed(w_)) for k_, w_ in v.items()))
+            if isinstance(v, (list, tuple)):
+                return (type(v).__name__, [typed(w_) for w_ in v])
+            return (type(v).__name__, v if isinstance(v, (str, int, float, bool, type(None))) else id(v))
         for x in u.netlists + u.libs + u.defs + u.ports + u.cables + u.insts:
             real = {k: x[k] for k in x}
-            if real != self.data.get(id(x), {}):
-                ks = set(real) ^ set(self.data.get(id(x), {}))
-                return "data", "data of %s differs from the mirror (keys %s)" % (type(x).__name__, sorted(ks) or "values")
+            mir = self.data.get(id(x), {})
+            if real != mir or typed(real) != typed(mir):
+                ks = set(real) ^ set(mir)
+                return "data", "data of %s differs from the mirror (keys %s)" % (type(x).__name__, sorted(ks) or "values (or their types)")
         return None
 
 
